@@ -45,3 +45,168 @@ Theorem C16_first_failure_is_contained_refuted :
   exists s, In [2; 91; 21; 2]%Z (Scenario.run_scenario 6000 200000 s).
 Proof. exact Refuted.internal_signal_escapes_refuted. Qed.
 Print Assumptions C16_first_failure_is_contained_refuted.
+
+(** ** mechanism-level model (FlowProto.v: agenda = the kernel's queue of activations, monitors, queue, consumer,
+    internal scope) and its theorems for ALL inputs (FlowProtoProps.v): any number of activities, any non-negative
+    delays, any count, any think times of the consumer.  The model is tied to usim/_concurrent/basics.py by the
+    correspondence of harness/flowcorr.py (same random inputs through the real first()/collect() and through
+    [first_run]/[collect_run]).
+    Notation: [finish_order t0 acts] = [(finish time, index)] of all activities sorted by finish time, equal times
+    in argument order ([C16_finish_order_is_sorted_by_time_then_index]); [successes] = its successful entries;
+    [ftime t0 acts i] = [t0 + delay of i]; a trace is [body ++ ab ++ [fe]]: [EFin]/[EYield] events, then the aborts,
+    then the event that ends the call. *)
+From Coq Require Import Lia Sorting.Sorted Sorting.Permutation.
+From Usim Require Import FlowProto FlowProtoProps.
+Open Scope Z_scope.
+
+Theorem C16_finish_order_is_sorted_by_time_then_index :
+  forall t0 acts,
+    StronglySorted lexlt (finish_order t0 acts) /\
+    Permutation (finish_order t0 acts) (map (fun j => (ftime t0 acts j, j)) (seq 0 (length acts))).
+Proof. exact finish_order_spec. Qed.
+Print Assumptions C16_finish_order_is_sorted_by_time_then_index.
+
+(** (a) first() yields the successful activities in finish order (ties: argument order), at most [count], each
+    not before it finished and exactly when it finished if the consumer is prompt; exactly [count] of them if
+    the iteration ends normally.  Holds with failing activities too. *)
+Theorem C16_first_yields_in_finish_order :
+  forall t0 acts count thinks,
+    nonneg acts -> (count_of acts count <= length acts)%nat ->
+    let ys := yields (first_run t0 acts count thinks) in
+    (length ys <= count_of acts count)%nat /\
+    map snd ys = map (value_at acts) (firstn (length ys) (successes t0 acts)) /\
+    (forall j y p, nth_error ys j = Some y -> nth_error (successes t0 acts) j = Some p -> fst p <= fst y) /\
+    (prompt_consumer thinks -> map fst ys = map fst (firstn (length ys) (successes t0 acts))) /\
+    (forall pre S, first_run t0 acts count thinks = pre ++ [EReturn S] -> length ys = count_of acts count).
+Proof. exact first_yields_in_finish_order. Qed.
+Print Assumptions C16_first_yields_in_finish_order.
+
+(** (a) no activity fails: exactly the first [count] activities of the finish order; the iteration ends normally *)
+Theorem C16_first_yields_first_count_results :
+  forall t0 acts count thinks,
+    nonneg acts -> (count_of acts count <= length acts)%nat -> all_succeed acts ->
+    let tr := first_run t0 acts count thinks in
+    let k := count_of acts count in
+    map snd (yields tr) = map (value_at acts) (firstn k (finish_order t0 acts)) /\
+    (forall j y p, nth_error (yields tr) j = Some y -> nth_error (finish_order t0 acts) j = Some p -> fst p <= fst y) /\
+    (prompt_consumer thinks -> map fst (yields tr) = map fst (firstn k (finish_order t0 acts))) /\
+    (exists pre S, tr = pre ++ [EReturn S]).
+Proof. exact first_yields_first_k. Qed.
+Print Assumptions C16_first_yields_first_count_results.
+
+(** (b) ValueError exactly when count exceeds the number of activities; nothing runs in that case *)
+Theorem C16_first_valueerror_iff_count_exceeds :
+  forall t0 acts count thinks,
+    nonneg acts ->
+    ((length acts < count_of acts count)%nat -> first_run t0 acts count thinks = [EValueError t0]) /\
+    ((exists t, In (EValueError t) (first_run t0 acts count thinks)) -> (length acts < count_of acts count)%nat).
+Proof. exact first_valueerror_iff. Qed.
+Print Assumptions C16_first_valueerror_iff_count_exceeds.
+
+(** (c) the stop of first(): everything that would finish later than the stop time [S] is aborted at [S]; nothing
+    happens after the aborts; no activity both finishes and is aborted; every activity does one of the two;
+    with count > 0 the activities that finish AT the stop time still finish *)
+Theorem C16_first_aborts_the_rest_at_the_stop :
+  forall t0 acts count thinks,
+    nonneg acts -> (count_of acts count <= length acts)%nat ->
+    exists S body ab fe,
+      first_run t0 acts count thinks = body ++ ab ++ [fe] /\ is_final fe /\ ev_time fe = S /\
+      Forall body_event body /\ Forall (fun e => ev_time e <= S) body /\
+      (forall t i, In (EFin t i) body ->
+         (i < length acts)%nat /\ t = ftime t0 acts i /\ t <= S /\ ~ In (EAbort S i) ab) /\
+      (forall e, In e ab -> exists i, e = EAbort S i /\ (i < length acts)%nat /\
+                                      S <= ftime t0 acts i /\ forall t, ~ In (EFin t i) body) /\
+      (forall i, (i < length acts)%nat -> S < ftime t0 acts i -> In (EAbort S i) ab) /\
+      (forall i, (i < length acts)%nat -> (exists t, In (EFin t i) body) \/ In (EAbort S i) ab) /\
+      ((0 < count_of acts count)%nat ->
+       (forall i, (i < length acts)%nat -> ftime t0 acts i <= S -> In (EFin (ftime t0 acts i) i) body) /\
+       (forall i, In (EAbort S i) ab -> S < ftime t0 acts i)).
+Proof. exact first_stop. Qed.
+Print Assumptions C16_first_aborts_the_rest_at_the_stop.
+
+(** if first() raises: at the earliest failure time, exactly the failures of that time in argument order *)
+Theorem C16_first_raises_the_first_failures :
+  forall t0 acts count thinks pre S es,
+    nonneg acts -> (count_of acts count <= length acts)%nat ->
+    first_run t0 acts count thinks = pre ++ [ERaise S es] ->
+    es = failures_at t0 S acts /\ es <> [] /\
+    (forall i e, (i < length acts)%nat -> out_of acts i = Fail e -> S <= ftime t0 acts i).
+Proof. exact first_raise. Qed.
+Print Assumptions C16_first_raises_the_first_failures.
+
+(** the escape of known finding D11 needs a consumer that suspends in its own loop body *)
+Theorem C16_first_prompt_consumer_no_escape :
+  forall t0 acts count thinks,
+    nonneg acts -> prompt_consumer thinks -> forall t, ~ In (EEscape t) (first_run t0 acts count thinks).
+Proof. exact first_prompt_no_escape. Qed.
+Print Assumptions C16_first_prompt_consumer_no_escape.
+
+(** (d) collect(): all results in argument order at the time the slowest activity finishes; the whole trace *)
+Theorem C16_collect_returns_all_at_the_slowest :
+  forall t0 acts,
+    nonneg acts -> all_succeed acts ->
+    collect_run t0 acts =
+    map fin_event (finish_order t0 acts) ++
+    [EResult (max_finish t0 acts) (map (fun a : activity => value_of (snd a)) acts)].
+Proof. exact collect_returns_all. Qed.
+Print Assumptions C16_collect_returns_all_at_the_slowest.
+
+(** (e) collect() with a failing activity: the call ends at the earliest failure time [S] raising exactly the
+    failures of that time in argument order; everything with a finish time up to [S] has finished, everything
+    later is aborted at [S] *)
+Theorem C16_collect_raises_first_failure_and_aborts_the_rest :
+  forall t0 acts i e,
+    nonneg acts -> (i < length acts)%nat -> out_of acts i = Fail e ->
+    exists S body ab,
+      collect_run t0 acts = body ++ ab ++ [ERaise S (failures_at t0 S acts)] /\
+      failures_at t0 S acts <> [] /\
+      (forall j e', (j < length acts)%nat -> out_of acts j = Fail e' -> S <= ftime t0 acts j) /\
+      Forall body_event body /\
+      (forall t j, In (EFin t j) body -> (j < length acts)%nat /\ t = ftime t0 acts j /\ t <= S) /\
+      (forall j, (j < length acts)%nat -> ftime t0 acts j <= S -> In (EFin (ftime t0 acts j) j) body) /\
+      (forall x, In x ab <-> exists j, x = EAbort S j /\ (j < length acts)%nat /\ S < ftime t0 acts j).
+Proof. exact collect_raises_first_failure. Qed.
+Print Assumptions C16_collect_raises_first_failure_and_aborts_the_rest.
+
+(** the model always finishes (its fuel is a measure that every step decreases) *)
+Theorem C16_flow_model_never_stuck :
+  forall t0 acts count thinks,
+    nonneg acts -> ~ In EStuck (first_run t0 acts count thinks) /\ ~ In EStuck (collect_run t0 acts).
+Proof. exact runs_finish. Qed.
+Print Assumptions C16_flow_model_never_stuck.
+
+(** non-trivial instances *)
+Example C16_ex_tie_at_the_kth_result :
+  first_run 0 [(2, Val 10); (2, Val 11); (3, Val 12)] (Some 1%nat) []
+  = [EFin 2 0; EFin 2 1; EYield 2 10; EAbort 2 2; EReturn 2].
+Proof. exact ex_first_tie. Qed.
+
+Example C16_ex_collect_failure :
+  let acts := [(3, Val 10); (1, Val 11); (2, Fail 90); (2, Fail 91); (2, Val 13); (0, Val 14); (4, Fail 92)] in
+  collect_run 0 acts
+  = [EFin 0 5; EFin 1 1; EFin 2 2; EFin 2 3; EFin 2 4; EAbort 2 0; EAbort 2 6; ERaise 2 [90; 91]] /\
+  failures_at 0 2 acts = [90; 91].
+Proof. exact ex_collect_failure. Qed.
+
+Example C16_ex_hypotheses_satisfiable :
+  nonneg [(3, Val 10); (0, Fail 90)] /\ all_succeed [(3, Val 10); (1, Val 11)] /\ prompt_consumer [0; 0].
+Proof. exact ex_hypotheses. Qed.
+
+(** full-strength readings that are false of the faithful model and of the library (see ex_first_failure,
+    ex_first_count_zero): with a failing activity first() does not deliver min(count, successes) results; for
+    count = 0 an activity whose finish time is the stop time is aborted *)
+Theorem C16_first_yields_min_count_successes_refuted :
+  exists t0 acts count thinks,
+    nonneg acts /\ (count_of acts count <= length acts)%nat /\ prompt_consumer thinks /\
+    (length (yields (first_run t0 acts count thinks))
+     < Nat.min (count_of acts count) (length (successes t0 acts)))%nat.
+Proof. exact first_yields_min_count_successes_refuted. Qed.
+Print Assumptions C16_first_yields_min_count_successes_refuted.
+
+Theorem C16_first_tie_with_stop_finishes_refuted :
+  exists t0 acts count thinks i,
+    nonneg acts /\ (count_of acts count <= length acts)%nat /\ (i < length acts)%nat /\
+    In (EReturn (ftime t0 acts i)) (first_run t0 acts count thinks) /\
+    In (EAbort (ftime t0 acts i) i) (first_run t0 acts count thinks).
+Proof. exact first_tie_with_stop_finishes_refuted. Qed.
+Print Assumptions C16_first_tie_with_stop_finishes_refuted.
